@@ -238,7 +238,7 @@ func (h *httpRun) revealChecks(e *entry, list []charEntry, whereSig, request str
 
 // fence: one cheap request on S; every EVENT written to S before precedes its response.
 func (h *httpRun) fence() ([]charEntry, bool) {
-	m, err := h.S.do("GET", "/characteristics?id=1.2", nil)
+	m, err := h.S.do("GET", "/characteristics?id=1.3", nil)
 	if err != nil || m.Status != 200 {
 		h.r.Count("http_fence_failed", 1)
 		return nil, false
